@@ -1,10 +1,10 @@
 SPECIFICATION Spec
 CONSTANTS
   NReq = 4
-  Caps = {1, 2, 3, 4}
+  Caps = {2, 3, 4}
   Kinds = {"read", "write"}
   WhoPats = {"alt"}
-  Resets = FALSE
+  Resets = TRUE
   Quiets = {TRUE, FALSE}
 INVARIANT TypeOK
 INVARIANT InOrder
